@@ -58,19 +58,26 @@ theorem C02_handback_only_when_ready (s : State) (i : Nat) (c : ConnId) (t : Tok
   · intro ⟨hb, ho⟩; simp [hb, ho]
   · intro ho; simp [ho, removeTask]
 
-/-- **C02 (a busy connection is never popped).** `pop` only returns connections that are open and
-    not busy – in particular not one that is in use, nor one whose response has not been consumed,
-    nor one taken over by an upgrade (which never reports ready again). -/
+/-- **C02 (a busy connection is never popped).** For a connection type whose `is_open()` means
+    "ready" (hyperdriver's own `HttpConnection`; `lax = false`) `pop` only returns connections that
+    are open and not busy – not one in use, nor one whose response has not been consumed, nor one
+    taken over by an upgrade (which never reports ready again). For a type that only reports "not
+    closed" the readiness gate is the `WhenReady` task alone (`C02_handback_only_when_ready`). -/
 theorem C02_pop_not_busy (s : State) (l : List (ConnId × Nat)) (c : ConnId) (k : Conn)
-    (h : (idlePop s l).1 = some c) (hk : s.conns c = some k) : k.busy = false ∧ k.isOpen = true := by
+    (h : (idlePop s l).1 = some c) (hk : s.conns c = some k) :
+    k.isOpen = true ∧ (s.cfg.lax = false → k.busy = false) := by
   have := (C05_pop_spec s l c h).1
   simp [isOpenC, hk] at this
-  exact ⟨this.2, this.1⟩
+  refine ⟨this.1, fun hl => ?_⟩
+  rcases this.2 with h' | h'
+  · rw [hl] at h'; cases h'
+  · exact h'
 
 /-- **C02 (use marks busy).** Handing a non-shareable connection to a request marks it busy, so it
     is not ready (hence cannot be popped or handed back) until `connReady`. -/
-theorem C02_exec_marks_busy (s : State) (c : ConnId) (k : Conn) (hk : s.conns c = some k) :
+theorem C02_exec_marks_busy (s : State) (c : ConnId) (k : Conn) (hk : s.conns c = some k)
+    (hl : s.cfg.lax = false) :
     isOpenC (setConn s c (fun k => { k with busy := true })) c = false := by
-  simp [isOpenC, setConn, hk]
+  simp [isOpenC, setConn, hk, hl]
 
 end Hd.Pool
